@@ -6,7 +6,14 @@
 (* (a configuration = the five components emitter, filter, ctxt, clock,    *)
 (* rng of one initialiser, all carrying the initialiser's tag).            *)
 (*                                                                         *)
-(* Initialiser i:  InitCall(i, kind) -> TrySet(i) -> InitRet(i, result).   *)
+(* An initialiser builds its configuration in one of the public forms      *)
+(* (Forms: Setup::emit_to / and_emit_to / both / map_emitter for the Setup  *)
+(* entry points; Runtime::build / Setup::init_runtime / Runtime::default()  *)
+(* + with_* for the slots' own init).  The forms differ only in how many    *)
+(* destinations (leaves) the installed emitter has and in whether a flush   *)
+(* budget is split on the way to them.                                      *)
+(*                                                                         *)
+(* Initialiser i:  InitCall(i, kind, form) -> TrySet(i) -> InitRet(i, res). *)
 (*   TrySet is the single atomic step of the design (OnceLock::set): the   *)
 (*   first one installs its configuration, every later one loses and its   *)
 (*   components are dropped unused.  The kinds that hand back the handle   *)
@@ -32,7 +39,9 @@ CONSTANTS
     InitKinds,    \* subset of PanickingKinds \cup TryKinds (below)
     ObsOps,       \* subset of {"is_enabled", "emit", "span", "flush", "probe"}
     MaxObs,       \* operations per observer
-    HandleOps,    \* subset of {"h_probe", "h_flush", "h_guard_drop"} ({} = no handle phase)
+    Forms,        \* subset of SetupForms \cup RuntimeForms (below)
+    HandleOps,    \* subset of {"h_probe", "h_flush", "h_guard_drop", "h_guard_unwind"} ({} = no
+                  \* handle phase)
     MaxHandle,    \* operations a successful initialiser makes through its handle
     Design        \* "oncelock" | "percomponent" | "twostep" | "lastwins"
 
@@ -51,22 +60,42 @@ Comps(op) ==
 VARIABLES
     slot,         \* Empty or the installed tag
     flag,         \* design "twostep" only: the enabled flag published before the value
-    ipc, ikind, ires, iret,
+    ipc, ikind, iform, ires, iret,
     opc, oop, oread, ocount, omust,
     seenEnabled,  \* some returned observation showed the slot enabled
     obsLog,       \* the returned observations
     hnd,          \* per initialiser: what it does with the handle (Init) it was given
     hLog          \* the returned handle operations
 
-vars == <<slot, flag, ipc, ikind, ires, iret, opc, oop, oread, ocount, omust, seenEnabled, obsLog>>
+vars == <<slot, flag, ipc, ikind, iform, ires, iret, opc, oop, oread, ocount, omust, seenEnabled, obsLog>>
 hvars == <<hnd, hLog>>
 allvars == <<vars, hvars>>
 NoHandle == [pc |-> "idle", op |-> "none", n |-> 0, gone |-> FALSE]
+
+\* the forms of building a configuration
+\*   through Setup (handed to try_init_slot / init_slot / try_init / init / ..._internal):
+\*     emit_to      setup().emit_to(E)                    and_emit_to  setup().and_emit_to(E)
+\*     emit_to_and  setup().emit_to(E).and_emit_to(E')    map_emitter  setup().map_emitter(|_| E)
+\*   a Runtime handed to the slot's own init:
+\*     build        Runtime::build(E, ..)                 init_runtime setup().emit_to(E)...init_runtime()
+\*     default_with Runtime::default().with_emitter(E)... init_runtime_and  ...emit_to(E).and_emit_to(E').init_runtime()
+SetupForms == {"emit_to", "and_emit_to", "emit_to_and", "map_emitter"}
+RuntimeForms == {"build", "init_runtime", "default_with", "init_runtime_and"}
+\* destinations of the installed emitter, each tagged with the initialiser's tag
+Leaves(f) == IF f \in {"emit_to_and", "init_runtime_and"} THEN 2 ELSE 1
+\* the emitter is an And: a flush budget is split between its halves (otherwise it arrives whole)
+Split(f) == f \in {"and_emit_to", "emit_to_and", "init_runtime_and"}
+\* the Setup entry points (they hand the successful caller an Init handle) take a Setup form,
+\* the slots' own init a Runtime form
+HandleKinds == {"try_init_slot", "init_slot", "try_init", "init", "try_init_internal",
+                "init_internal"}
+FormsFor(k) == IF k \in HandleKinds THEN SetupForms ELSE RuntimeForms
 
 Init ==
     /\ slot = Empty /\ flag = FALSE
     /\ ipc = [i \in Inits |-> "idle"]
     /\ ikind = [i \in Inits |-> "none"]
+    /\ iform = [i \in Inits |-> "none"]
     /\ ires = [i \in Inits |-> "none"]
     /\ iret = [i \in Inits |-> "none"]
     /\ opc = [o \in Observers |-> "idle"]
@@ -80,10 +109,12 @@ Init ==
     /\ hLog = {}
 
 -----------------------------------------------------------------------------
-InitCall(i, k) ==
+InitCall(i, k, f) ==
     /\ ipc[i] = "idle"
+    /\ f \in FormsFor(k)
     /\ ipc' = [ipc EXCEPT ![i] = "called"]
     /\ ikind' = [ikind EXCEPT ![i] = k]
+    /\ iform' = [iform EXCEPT ![i] = f]
     /\ UNCHANGED <<slot, flag, ires, iret, opc, oop, oread, ocount, omust, seenEnabled, obsLog>>
 
 \* the single atomic step
@@ -103,14 +134,14 @@ TrySet(i) ==
                  THEN slot' = i /\ flag' = TRUE /\ ires' = [ires EXCEPT ![i] = "won"]
                  ELSE UNCHANGED <<slot, flag>> /\ ires' = [ires EXCEPT ![i] = "lost"]
               /\ ipc' = [ipc EXCEPT ![i] = "attempted"]
-    /\ UNCHANGED <<ikind, iret, opc, oop, oread, ocount, omust, seenEnabled, obsLog>>
+    /\ UNCHANGED <<ikind, iform, iret, opc, oop, oread, ocount, omust, seenEnabled, obsLog>>
 
 \* design "twostep": second step, the value
 Publish(i) ==
     /\ ipc[i] = "publishing"
     /\ slot' = i
     /\ ipc' = [ipc EXCEPT ![i] = "attempted"]
-    /\ UNCHANGED <<flag, ikind, ires, iret, opc, oop, oread, ocount, omust, seenEnabled, obsLog>>
+    /\ UNCHANGED <<flag, ikind, iform, ires, iret, opc, oop, oread, ocount, omust, seenEnabled, obsLog>>
 
 \* Every public way of initialising a slot.  The forms that return the handle directly
 \* panic when they lose; the try_ forms and the slots' own init return None.
@@ -135,7 +166,7 @@ InitRet(i, r) ==
     /\ r = RetOf(ikind[i], ires[i])
     /\ ipc' = [ipc EXCEPT ![i] = "returned"]
     /\ iret' = [iret EXCEPT ![i] = r]
-    /\ UNCHANGED <<slot, flag, ikind, ires, opc, oop, oread, ocount, omust, seenEnabled, obsLog>>
+    /\ UNCHANGED <<slot, flag, ikind, iform, ires, opc, oop, oread, ocount, omust, seenEnabled, obsLog>>
 
 ObsCall(o, op) ==
     /\ opc[o] \in {"idle", "returned"}
@@ -144,7 +175,7 @@ ObsCall(o, op) ==
     /\ oop' = [oop EXCEPT ![o] = op]
     /\ oread' = [oread EXCEPT ![o] = <<>>]
     /\ omust' = [omust EXCEPT ![o] = seenEnabled]
-    /\ UNCHANGED <<slot, flag, ipc, ikind, ires, iret, ocount, seenEnabled, obsLog>>
+    /\ UNCHANGED <<slot, flag, ipc, ikind, iform, ires, iret, ocount, seenEnabled, obsLog>>
 
 \* what one read of the slot yields (design "twostep": is_enabled looks at the flag, get()
 \* at the value)
@@ -159,11 +190,13 @@ Read(o) ==
     /\ oread' = [oread EXCEPT ![o] = Append(@, SeenBy(oop[o]))]
     /\ opc' = [opc EXCEPT ![o] =
                  IF Design = "percomponent" /\ Len(oread[o]) + 1 < NComp THEN "called" ELSE "read"]
-    /\ UNCHANGED <<slot, flag, ipc, ikind, ires, iret, oop, ocount, omust, seenEnabled, obsLog>>
+    /\ UNCHANGED <<slot, flag, ipc, ikind, iform, ires, iret, oop, ocount, omust, seenEnabled, obsLog>>
 
 \* the tag component k of the observation shows
 TagOf(o, k) == IF Len(oread[o]) = 1 THEN oread[o][1] ELSE oread[o][k]
 EnabledOf(o) == TagOf(o, 1) # Empty
+\* the destinations of the emitter of configuration t (the empty runtime has none)
+LeavesAt(t) == IF t = Empty THEN 0 ELSE Leaves(iform[t])
 
 \* the observation an operation returns: per component the tag that answered (Empty = the
 \* constant empty runtime: nothing emitted / no property / no reading / no value)
@@ -171,6 +204,10 @@ ResultOf(o) ==
     [op |-> oop[o],
      tags |-> [k \in 1..NComp |-> IF k \in Comps(oop[o]) THEN TagOf(o, k) ELSE Unobs],
      en |-> EnabledOf(o),
+     \* destinations that answered (an event / a flush request reaches each exactly once)
+     ne |-> IF 1 \in Comps(oop[o]) THEN LeavesAt(TagOf(o, 1)) ELSE 0,
+     \* the configuration's emitter splits a flush budget on the way
+     split |-> 1 \in Comps(oop[o]) /\ TagOf(o, 1) # Empty /\ Split(iform[TagOf(o, 1)]),
      must |-> omust[o]]
 
 ObsRet(o, res) ==
@@ -180,7 +217,7 @@ ObsRet(o, res) ==
     /\ ocount' = [ocount EXCEPT ![o] = @ + 1]
     /\ seenEnabled' = (seenEnabled \/ res.en \/ \E k \in Comps(res.op) : res.tags[k] # Empty)
     /\ obsLog' = obsLog \cup {res}
-    /\ UNCHANGED <<slot, flag, ipc, ikind, ires, iret, oop, oread, omust>>
+    /\ UNCHANGED <<slot, flag, ipc, ikind, iform, ires, iret, oop, oread, omust>>
 
 ObsReturn(o) ==
     /\ opc[o] = "read"
@@ -194,29 +231,38 @@ ObsReturn(o) ==
      h_probe      the five components through Init::get()
      h_flush      Init::blocking_flush(timeout): the emitter is asked once, its answer returned
      h_guard_drop Init::flush_on_drop(timeout), InitGuard::inner(), then dropping the guard:
-                  the emitter is asked exactly once, when the guard is dropped *)
-HandleKinds == {"try_init_slot", "init_slot", "try_init", "init", "try_init_internal",
-                "init_internal"}
+                  the emitter is asked exactly once, when the guard is dropped
+     h_guard_unwind  the same, the guard being dropped by a panic that unwinds through its scope
+   "The emitter is asked once" = each of its destinations is.
+   A caller of a try_ form that lost guards what it was handed the same way
+   (`try_init..().map(|init| init.flush_on_drop(t))`): there is no guard, nothing is flushed. *)
 HComps(op) == IF op = "h_probe" THEN {1, 2, 3, 4, 5} ELSE {1}
-HFlushes(op) == IF op \in {"h_flush", "h_guard_drop"} THEN 1 ELSE 0
+GuardOps == {"h_guard_drop", "h_guard_unwind"}
+HFlushOps == {"h_flush"} \cup GuardOps
 
 HandleCall(i, op) ==
-    /\ ipc[i] = "returned" /\ iret[i] \in {"some", "ok"} /\ ikind[i] \in HandleKinds
+    /\ ipc[i] = "returned" /\ ikind[i] \in HandleKinds
+    /\ iret[i] \in {"some", "ok"} \/ (iret[i] = "nil" /\ op \in GuardOps)
     /\ hnd[i].pc = "idle" /\ ~hnd[i].gone /\ hnd[i].n < MaxHandle
     /\ hnd' = [hnd EXCEPT ![i] = [@ EXCEPT !.pc = "called", !.op = op]]
     /\ UNCHANGED <<vars, hLog>>
 
 \* level B: the handle's references are to the components the caller passed in (tag i)
+\* (a caller that lost holds nothing: no component answers, nothing is flushed)
 HResultOf(i) ==
-    [i |-> i, op |-> hnd[i].op,
-     tags |-> [k \in 1..NComp |-> IF k \in HComps(hnd[i].op) THEN i ELSE Unobs],
-     flushes |-> HFlushes(hnd[i].op)]
+    LET won == iret[i] \in {"some", "ok"}
+        who == IF won THEN i ELSE Empty
+    IN [i |-> i, op |-> hnd[i].op, won |-> won,
+        tags |-> [k \in 1..NComp |-> IF k \in HComps(hnd[i].op) THEN who ELSE Unobs],
+        ne |-> IF won THEN Leaves(iform[i]) ELSE 0,
+        flushes |-> IF won /\ hnd[i].op \in HFlushOps THEN Leaves(iform[i]) ELSE 0,
+        split |-> won /\ Split(iform[i])]
 
 HandleRet(i, res) ==
     /\ hnd[i].pc = "called"
     /\ res = HResultOf(i)
     /\ hnd' = [hnd EXCEPT ![i] = [@ EXCEPT !.pc = "idle", !.n = @ + 1,
-                                          !.gone = (res.op = "h_guard_drop")]]
+                                          !.gone = (res.op \in GuardOps)]]
     /\ hLog' = hLog \cup {res}
     /\ UNCHANGED vars
 
@@ -225,7 +271,7 @@ HandleReturn(i) ==
     /\ HandleRet(i, HResultOf(i))
 
 \* the actions above leave the handle phase alone
-DoInitCall(i, k) == InitCall(i, k) /\ UNCHANGED hvars
+DoInitCall(i, k, f) == InitCall(i, k, f) /\ UNCHANGED hvars
 DoTrySet(i) == TrySet(i) /\ UNCHANGED hvars
 DoPublish(i) == Publish(i) /\ UNCHANGED hvars
 DoInitRet(i, r) == InitRet(i, r) /\ UNCHANGED hvars
@@ -234,7 +280,7 @@ DoRead(o) == Read(o) /\ UNCHANGED hvars
 DoObsReturn(o) == ObsReturn(o) /\ UNCHANGED hvars
 
 Next ==
-    \/ \E i \in Inits, k \in InitKinds : DoInitCall(i, k)
+    \/ \E i \in Inits, k \in InitKinds, f \in Forms : DoInitCall(i, k, f)
     \/ \E i \in Inits : DoTrySet(i)
     \/ \E i \in Inits : DoPublish(i)
     \/ \E i \in Inits, r \in {"some", "nil", "ok", "panic"} : DoInitRet(i, r)
@@ -278,8 +324,21 @@ LosersNeverReceive ==
 \* what a successful caller reaches through its handle is the installed configuration, all
 \* components of it; a flush through the handle (or on dropping its guard) asks once
 HandleIsInstalled ==
-    \A h \in hLog : /\ \A k \in HComps(h.op) : h.tags[k] = slot /\ slot # Empty
-                     /\ h.flushes = HFlushes(h.op)
+    \A h \in hLog : h.won =>
+        /\ \A k \in HComps(h.op) : h.tags[k] = slot /\ slot # Empty
+        /\ h.ne = LeavesAt(slot)
+        /\ h.flushes = IF h.op \in HFlushOps THEN LeavesAt(slot) ELSE 0
+
+\* whoever lost holds no guard: dropping what it was handed reaches no component and flushes
+\* nothing
+GuardInertWhenLost ==
+    \A h \in hLog : ~h.won =>
+        /\ Failure(iret[h.i]) /\ slot # h.i
+        /\ h.flushes = 0 /\ h.ne = 0 /\ \A k \in HComps(h.op) : h.tags[k] = Empty
+
+\* an observation answered by a configuration reached every destination of its emitter
+WholeEmitter ==
+    \A r \in obsLog : 1 \in Comps(r.op) => r.ne = LeavesAt(r.tags[1])
 
 \* an observation shows the empty runtime in all components or one configuration in all
 AllFiveTogether ==
